@@ -50,6 +50,7 @@ fn main() {
                 out: arg_val(&args, "--out"),
                 replay_dir: arg_val(&args, "--replay-dir").unwrap_or_else(|| "/verif/replays".into()),
                 budget_s: arg_val(&args, "--budget-s").and_then(|s| s.parse().ok()),
+                hashes: arg_val(&args, "--hashes"),
             };
             driver::check(sc, &o)
         },
